@@ -66,6 +66,8 @@ func c11GenCfg(r *verifh.Rand) *c11Cfg {
 		if a.noip {
 			a.asn = 0
 		}
+		// the same IPv4 address in its IPv4-mapped IPv6 spelling (one IP, one per-IP bucket, no ASN)
+		a.mapped = !a.noip && a.ip <= 4 && r.Chance(1, 3)
 		return a
 	}
 	for i := 0; i < c.n; i++ {
